@@ -237,4 +237,18 @@ theorem resolve_positions_lt {n : Nat} {ix : Index} {ps : List Nat}
       simp only [hs, Sel.positions, Option.some.injEq] at h
       subst h; exact arrPos_lt hs
 
+theorem rangeLen_all (n : Nat) : rangeLen 0 (n : Int) 1 = n := by
+  unfold rangeLen
+  simp only [show (1 : Int) > 0 by decide, if_true]
+  split
+  · simp only [Int.sub_zero, Int.ediv_one]; omega
+  · omega
+
+theorem rangeLen_rev (n : Nat) : rangeLen ((n : Int) - 1) (-1) (-1) = n := by
+  unfold rangeLen
+  simp only [show ¬ ((-1 : Int) > 0) by decide, if_false]
+  split
+  · simp only [Int.neg_neg, Int.ediv_one]; omega
+  · omega
+
 end FDA.Slice
